@@ -26,6 +26,13 @@ class TrError(Exception):
     pass
 
 
+class NeedFn(TrError):
+    """a call to a function of the same source file that is not (yet) translated"""
+    def __init__(self, name):
+        TrError.__init__(self, 'call to %s unsupported' % name)
+        self.name = name
+
+
 # ----------------------------------------------------------------------------- lexer
 TOK_RE = re.compile(r'''
     (?P<ws>\s+|//[^\n]*|/\*.*?\*/)
@@ -551,7 +558,7 @@ class FnTr:
                 return ('option', self.ty_of(e[2][0], env))
             if name.endswith('from_be_bytes') or name.endswith('from_le_bytes'):
                 return name.split('::')[0]
-            raise TrError('call %s unsupported' % name)
+            raise NeedFn(name)
         if k == 'mcall':
             m = e[2]
             if m in ('len',):
@@ -835,7 +842,7 @@ class FnTr:
                 vs.append(v)
                 ss = sand(ss, s)
             return '(%s %s)' % (name, ' '.join(vs)), sand(ss, '(%s_safe %s)' % (name, ' '.join(vs))), rty
-        raise TrError('call to %s unsupported' % name)
+        raise NeedFn(name)
 
     def mcall(self, e, env, want):
         recv, m, args = e[1], e[2], e[3]
@@ -1339,8 +1346,22 @@ def translate_module(repo, spec):
             consts[item.get('name', item['const'])] = ty
         else:
             text = find_fn_source(src, item['fn'], item.get('impl'), item.get('nth', 0))
-            tr = FnTr(sigs, consts, item.get('self_fields'))
-            cname, code, sig = tr.function(text, item.get('name'), item.get('until'), item.get('returns'))
+            # helper functions of the same file that the target calls are translated on demand
+            # (so that extracting a helper in a refactor keeps the tie instead of breaking it)
+            for _attempt in range(12):
+                try:
+                    tr = FnTr(sigs, consts, item.get('self_fields'))
+                    cname, code, sig = tr.function(text, item.get('name'), item.get('until'), item.get('returns'))
+                    break
+                except NeedFn as need:
+                    hname = need.name.split('::')[-1]
+                    htext = find_fn_source(src, hname)
+                    htr = FnTr(sigs, consts)
+                    hc, hcode, hsig = htr.function(htext)
+                    out.append(hcode)
+                    sigs[hc] = hsig
+            else:
+                raise TrError('too many helper functions needed by %s' % item['fn'])
             out.append(code)
             sigs[cname] = sig
             if item.get('name') and item['name'] != item['fn']:
